@@ -70,10 +70,13 @@ class Contract:
         self.initializes = {}     # constructors: field -> expression over the parameters (post-state)
         self.fuel = 1
         self.timeout = None
+        self.slice = None         # (first statement prefix, last statement prefix): only this statement range is verified
         self.pure = False         # deterministic function of its (value) arguments: usable in specs as f(args)
 
     @property
     def key(self):
+        if self.slice is not None:
+            return f"{self.target}[{self.name}]"
         return self.target or f"lemma:{self.name}"
 
 
@@ -204,6 +207,8 @@ def load_file(path):
                     c.mode = _const(k.value)
                 if k.arg == "name":
                     c.name = _const(k.value)
+                if k.arg == "slice":
+                    c.slice = tuple(_const(k.value))
             c.assumed = c.kind == "external"
             c.name = c.name or c.target
         elif (isinstance(dec, ast.Name) and dec.id == "lemma") or \
@@ -238,7 +243,7 @@ class ContractDB:
         self.pure = {c.target.split(":")[1]: c for c in self.all if c.kind != "lemma" and c.pure}
 
     def get(self, target, mode=None):
-        cs = self.by_target.get(target, [])
+        cs = [c for c in self.by_target.get(target, []) if c.slice is None]
         if mode is not None:
             cs = [c for c in cs if c.mode == mode] or [c for c in cs if c.mode == "func"]
         return cs[0] if cs else None
